@@ -95,6 +95,7 @@ class MockCA:
             "orders_url": True,
             "cert_body": None,            # override the served certificate body
             "chain_sep": "",              # text between the certificates of the chain (Boulder: "\n")
+            "chain_tail": "",             # text after the last certificate of the chain
             "delay_ms": 0,
         }
         if opts:
@@ -627,7 +628,7 @@ class MockCA:
                         # demands the end-entity certificate first: a client must not install this)
                         blocks = [b + "-----END CERTIFICATE-----\n" for b in pem.split("-----END CERTIFICATE-----\n") if b.strip()]
                         pem = "".join(reversed(blocks))
-                    self.certs[cid] = pem.replace("-----\n-----BEGIN", "-----\n" + o["chain_sep"] + "-----BEGIN")
+                    self.certs[cid] = pem.replace("-----\n-----BEGIN", "-----\n" + o["chain_sep"] + "-----BEGIN") + o.get("chain_tail", "")
                     od["cert"] = self.url("/cert/" + cid)
                     od["status"] = "valid"
                 else:
